@@ -43,6 +43,9 @@ def envSplit (pre : Bytes) : Bytes → (Bytes × Option Bytes)
        | [] => (pre.reverse ++ [c], none))
     else envSplit (c :: pre) cs
 
+/-- newlines in a piece of text -/
+def nlCount (b : Bytes) : Nat := (b.filter (· == c_nl)).length
+
 def envLookup (env : Env) (inside : Bytes) : Bytes :=
   let (name, dflt) := envSplit [] inside
   match env name with
@@ -98,7 +101,7 @@ def dqStep (env : Env) (s : DqSt) (c : Nat) (cs : Bytes) : DqSt ⊕ LexOut :=
   | .envOpen => .inl ⟨.env [], s.acc, s.nl⟩
   | .env inside =>
       if c = c_rbr then .inl ⟨.plain, (envLookup env inside.reverse).reverse ++ s.acc, s.nl⟩
-      else .inl ⟨.env (c :: inside), s.acc, s.nl⟩
+      else .inl ⟨.env (c :: inside), s.acc, if c = c_nl then s.nl + 1 else s.nl⟩   -- a newline inside `${…}` is a line (fix F39)
   | .esc =>
       if c = c_nl then .inl ⟨.plain, s.acc, s.nl + 1⟩
       else if isDec c then .inl ⟨.digits 1 (isOct c) (c - 48), s.acc, s.nl⟩
@@ -215,7 +218,8 @@ def lexInitial (env : Env) : Nat → Bytes → LexOut
       match cs with
       | d :: ds =>
         if d = c_lbr && hasRbr ds then
-          ⟨.str (cstr (envLookup env (ds.takeWhile (· != c_rbr)))), nl, (ds.dropWhile (· != c_rbr)).drop 1⟩
+          ⟨.str (cstr (envLookup env (ds.takeWhile (· != c_rbr)))), nl + nlCount (ds.takeWhile (· != c_rbr)),
+           (ds.dropWhile (· != c_rbr)).drop 1⟩
         else lexWord nl (c :: cs)
       | [] => lexWord nl (c :: cs)
     else if isWordByte c then lexWord nl (c :: cs)
